@@ -111,8 +111,10 @@ theorem search_ok_hot (hot cold : List (Nat × ProxySearch.ShardRes)) (offset si
   | data qs p' =>
     rw [hs] at h
     simp only [ProxySearch.finish] at h
-    injection h with h1 h2 h3 h4 h5
-    exact ⟨qs, by rw [h4], h1.symm, h2.symm⟩
+    split at h
+    · cases h
+    · injection h with h1 h2 h3 h4 h5
+      exact ⟨qs, by rw [h4], h1.symm, h2.symm⟩
   | err k =>
     rw [hs] at h
     cases k with
@@ -123,7 +125,7 @@ theorem search_ok_hot (hot cold : List (Nat × ProxySearch.ShardRes)) (offset si
       · cases hc : ProxySearch.searchStores cold with
         | err k => rw [hc] at h; simp [ProxySearch.finish] at h
         | panic => rw [hc] at h; simp [ProxySearch.finish] at h
-        | data qs p' => rw [hc] at h; simp [ProxySearch.finish] at h
+        | data qs p' => rw [hc] at h; simp only [ProxySearch.finish] at h; split at h <;> simp at h
     | tmf => simp [ProxySearch.finish] at h
     | tmu => simp [ProxySearch.finish] at h
     | other => simp [ProxySearch.finish] at h
